@@ -283,4 +283,90 @@ theorem solid_core (m cp cmin D L dt q Hs Tm lo σ B : ℝ)
     have := mul_lt_mul_of_pos_left this hD
     linarith
 
+/-! ### the three shapes of a vial transition (model level) and plumbing -/
+
+section
+variable {α : Type} [Transc α]
+
+/-- the new vial value is literally one of three records -/
+theorem vialStep_cases (p : Params α) (tk : α) (isCN anyS : Bool) (v : Vial α) (q kb die : α) :
+    let m := vialMid p tk anyS v q
+    let v' := vialFinal p tk isCN m kb die
+    (isLiquid v = true ∧ nucleates p isCN m kb die = false ∧
+        v' = { v with T := liquidTemp p.c p.dt q v.T, tSol := tSolUpdate p tk anyS v }) ∨
+    (isLiquid v = true ∧ nucleates p isCN m kb die = true ∧
+        decide (liquidTemp p.c p.dt q v.T < p.c.T_eq_l) = true ∧
+        v' = { v with
+          T := eqTemp p.c (sigmaJump p.initIce p.c (liquidTemp p.c p.dt q v.T))
+          sigma := sigmaJump p.initIce p.c (liquidTemp p.c p.dt q v.T)
+          tNuc := some (tk + p.dt)
+          TNuc := some (liquidTemp p.c p.dt q v.T)
+          tSol := tSolUpdate p tk anyS v }) ∨
+    (isLiquid v = false ∧ nucleates p isCN m kb die = false ∧
+        v' = { v with
+          T := eqTemp p.c (solidSigma p.c p.dt q v.sigma)
+          sigma := solidSigma p.c p.dt q v.sigma
+          tSol := tSolUpdate p tk anyS v }) := by
+  intro m v'
+  by_cases hl : isLiquid v = true
+  · have hm : m = ⟨{ v with T := liquidTemp p.c p.dt q v.T, tSol := tSolUpdate p tk anyS v }, true⟩ := by
+      simp only [m, vialMid, hl, if_true]
+    by_cases hn : nucleates p isCN m kb die = true
+    · right; left
+      refine ⟨hl, hn, ?_, ?_⟩
+      · have := hn
+        simp only [nucleates, Bool.and_eq_true, isCand] at this
+        have h2 := this.1.2
+        rw [hm] at h2
+        exact h2
+      · simp only [v', vialFinal, hn, if_true]
+        rw [hm]
+    · left
+      have hn' : nucleates p isCN m kb die = false := by simpa using hn
+      refine ⟨hl, hn', ?_⟩
+      simp only [v', vialFinal, hn']
+      rw [hm]
+      rfl
+  · right; right
+    have hl' : isLiquid v = false := by simpa using hl
+    have hm : m = ⟨{ v with
+        T := eqTemp p.c (solidSigma p.c p.dt q v.sigma)
+        sigma := solidSigma p.c p.dt q v.sigma
+        tSol := tSolUpdate p tk anyS v }, false⟩ := by
+      simp only [m, vialMid, hl']
+      rfl
+    have hn : nucleates p isCN m kb die = false := by
+      simp only [nucleates, isCand, hm, Bool.false_and]
+    refine ⟨hl', hn, ?_⟩
+    simp only [v', vialFinal, hn]
+    rw [hm]
+    rfl
+
+theorem temps_getD (s : State α) (j : Nat) (v : Vial α) (d : α) (h : s.vials[j]? = some v) :
+    (temps s).getD j d = v.T := by
+  simp [temps, Array.getD_eq_getD_getElem?, h]
+
+end
+
+theorem isLiquid_real (v : Vial ℝ) : isLiquid v = decide (v.sigma = 0) := by
+  simp [isLiquid]
+
+/-- closed form of the solidifying update in terms of the bracket of eq. 5 -/
+theorem solidSigma_eq (ph : Phys) (h : ph.Valid) (dt q σ : ℝ) (hσ : σ ≠ 1) (hb : ph.bracket σ ≠ 0) :
+    solidSigma ph.consts dt q σ = σ - q * dt / (ph.m * ph.bracket σ) := by
+  have hm := h.m_pos
+  have h1 : (1 - σ) ≠ 0 := fun hh => hσ (by linarith)
+  have hden : ph.consts.alpha - ph.consts.depression * ph.consts.mass * cpSigma ph.consts σ
+      / ((1 - σ) * (1 - σ)) = -(ph.m * ph.bracket σ) := by
+    rw [cpSigma_cp]
+    simp only [Phys.consts, Phys.bracket, Phys.m, Phys.D]
+    field_simp
+    ring
+  unfold solidSigma
+  simp only [one_real]
+  rw [hden]
+  have hmb : ph.m * ph.bracket σ ≠ 0 := mul_ne_zero (ne_of_gt hm) hb
+  field_simp
+  ring
+
 end Snow.FlakeLemmas
